@@ -97,6 +97,16 @@ func c18Value(f universe.Field, side string, salt string, variant int) reflect.V
 				v = long(17, !isTo, !isTo)
 			case 5: // 33 vs 32 members
 				v = long(map[bool]int{true: 33, false: 32}[isTo], false, false)
+			case 6: // the Public collection on both sides, among other addressees
+				v = ap.ItemCollection{ap.PublicNS, same("x")}
+				if !isTo {
+					v = ap.ItemCollection{same("y"), ap.PublicNS}
+				}
+			case 7: // the Public collection only in to's list
+				v = ap.ItemCollection{ap.PublicNS, same("x")}
+				if !isTo {
+					v = ap.ItemCollection{same("y")}
+				}
 			default:
 				return reflect.Value{}
 			}
@@ -277,6 +287,18 @@ func c18Build(k c18Kind, side string, sets []c18Setting, bg string) reflect.Valu
 			}
 		}
 	}
+	if bg == "public" {
+		// the other addressing lists of both sides mention the Public collection (and one ordinary addressee each)
+		for _, f := range st.PropertyFields() {
+			if focus[f.Index] || f.Kind != universe.KItems {
+				continue
+			}
+			switch f.Term {
+			case "to", "cc", "bto", "bcc", "audience":
+				e.Field(f.Index).Set(reflect.ValueOf(ap.ItemCollection{ap.PublicNS, ap.IRI("https://example.com/" + side + "/" + f.Term + "/other")}))
+			}
+		}
+	}
 	if bg == "both" || bg == side {
 		for _, f := range st.PropertyFields() {
 			if focus[f.Index] {
@@ -376,8 +398,8 @@ func c18Run(c *engine.Ctx) {
 			}
 			// further value pairs (both sides set; from only): same identities presented or ordered differently, epoch instants ...
 			for variant := 1; c18Value(f, "to", "", variant).IsValid(); variant++ {
-				for _, cb := range combos[1:3] {
-					for _, bg := range []string{"none", "both"} {
+				for _, cb := range combos[:3] {
+					for _, bg := range []string{"none", "both", "public"} {
 						f, cb, bg, variant := f, cb, bg, variant
 						c.Do("C18|"+k.name, func() string {
 							return fmt.Sprintf("%s: %s (value pair #%d) set on to=%v from=%v, other properties: %s", k.name, f.Term, variant, cb[0], cb[1], bg)
